@@ -228,7 +228,7 @@ Inductive hexp :=
 | XGuardCfg (key : string) (e : exn) (body : hexp)   (* if not self._config[key]: raise e(..)   then body *)
 | XTryExc (body handler : hexp)             (* try: body  except Exception: handler *)
 | XIfNone (c t e : hexp)                    (* t if c is None else e *)
-| XIfHasConn (c t e : hexp)                 (* t if hasattr(c, '____conn__') else e *)
+| XIfHasConn (ty : bool) (c t e : hexp)     (* t if hasattr(c, '____conn__') else e; ty: the test is on type(c) *)
 | XForward (c : hexp) (h : Z) (a : hexp)    (* c.____conn__.sync_request(h, a) *)
 | XCtxArgs (e : hexp).                      (* the (exc, typ, tb) triple computed by _handle_ctxexit *)
 Record hdef := { h_min : nat; h_defaults : list hexp; h_body : hexp }.
@@ -253,7 +253,7 @@ Definition handlers : list (string * hdef) :=
    ("call", {| h_min := 2; h_defaults := [XUnit]; h_body := XCall P0 XTup0 P1 P2 |});
    ("dir", {| h_min := 1; h_defaults := []; h_body := XOp OpDir P0 XNone |});
    ("inspect", {| h_min := 1; h_defaults := [];
-                  h_body := XIfHasConn (XLookup P0) (XForward (XLookup P0) 16 P0) (XOp OpGetMethods (XLookup P0) XNone) |});
+                  h_body := XIfHasConn true (XLookup P0) (XForward (XLookup P0) 16 P0) (XOp OpGetMethods (XLookup P0) XNone) |});
    ("getattr", {| h_min := 2; h_defaults := []; h_body := get_attr P0 P1 |});
    ("delattr", {| h_min := 2; h_defaults := []; h_body := XAccess PDel P0 P1 XTup0 |});
    ("setattr", {| h_min := 3; h_defaults := []; h_body := XAccess PSet P0 P1 (tup1 P2) |});
@@ -261,7 +261,7 @@ Definition handlers : list (string * hdef) :=
    ("ctxexit", {| h_min := 2; h_defaults := [];
                   h_body := XLet (XCtxArgs P1) (XCall (get_attr P0 (XText "__exit__")) XTup0 (XLocal 0) XUnit) |});
    ("instancecheck", {| h_min := 2; h_defaults := [];
-                        h_body := XIfHasConn P0 (XForward P0 16 P1) (XOp OpIsinstance P0 P1) |});
+                        h_body := XIfHasConn false P0 (XForward P0 16 P1) (XOp OpIsinstance P0 P1) |});
    ("pickle", {| h_min := 2; h_defaults := []; h_body := XGuardCfg "allow_pickle" ValueError (XOp OpPickle P0 P1) |});
    ("buffiter", {| h_min := 2; h_defaults := []; h_body := XOp OpIslice P0 P1 |});
    ("oldslicing", {| h_min := 6; h_defaults := [];
@@ -780,11 +780,14 @@ Fixpoint eval (env loc : list lval) (e : hexp) {struct e} : M lval :=
   | XIfNone c t e1 =>
       dom cv <- eval env loc c;
       match cv with LV PNone => eval env loc t | _ => eval env loc e1 end
-  | XIfHasConn c t e1 =>
+  | XIfHasConn ty c t e1 =>
       dom cv <- eval env loc c;
       match cv with
       | LP _ => eval env loc t
-      | LO o => dom _ <- emit (ETouch o OpHasConn []); eval env loc e1
+      | LO o =>
+          dom _ <- (if ty then dom _ <- emit (EType o (s_type S o)); emit (ETouch (s_type S o) OpHasConn [])
+                    else emit (ETouch o OpHasConn []));
+          eval env loc e1
       | _ => eval env loc e1
       end
   | XForward c h a =>
